@@ -196,6 +196,8 @@ def generate(rng, tier):
     # oracle: encode -> parse -> compare
     for _ in range(3000 if big else 500):
         cases.append("C08 e2e %d" % rng.randrange(1 << 30))
+    for _ in range(300 if big else 60):
+        cases.append("C08 e2e %d edge" % rng.randrange(1 << 30))
     return cases
 
 
@@ -286,6 +288,15 @@ def oracle(case):
              "cap": [65534, 65535, 65536, 65537, 70001, 5, 0], "e2e-small": [0, 3, 17, 64], "e2e-big": [40000, 30000, 5],
              "longhdr": [0, 3, 17]}[regime]
     parts = rand_parts(rng, boundary, sizes)
+    edge = len(t) > 3 and t[3] == "edge"
+    if edge:
+        # directed: a content line whose CR / LF / last byte is the 65536th byte of the line the parser reads, and the
+        # input arrives in pieces, as from a socket (the reader's buffer is empty where the line is cut, more is to come)
+        regime = "e2e-edge"
+        k = rng.choice([65535, 65535, 65534, 65536, 131071, 131072])
+        fill = rng.choice([b"a", b"-", b"\x00"])
+        parts = [(parts[0][0], "e.bin", "application/octet-stream", fill * k + rng.choice([b"", b"", b"\r", b"\ntail"])),
+                 (parts[-1][0], None, None, b"tail")]
     if regime == "longhdr":
         # a header line of a part (a long file name) whose length sits on a multiple of the 64 KiB line limit the
         # content loop uses; more headers follow it
@@ -315,7 +326,8 @@ def oracle(case):
     desc = ""
     try:
         if regime.startswith("e2e"):
-            got, desc = through_request(rng, body, boundary, factory)
+            got, desc = through_request(rng, body, boundary, factory,
+                                        rng.choice([1460, 4096, 65536, 1, 100000]) if edge else None)
         else:
             if rng.random() < 0.5:
                 how = "lf"
@@ -375,7 +387,7 @@ def oracle(case):
 _apps = {}
 
 
-def through_request(rng, body, boundary, factory):
+def through_request(rng, body, boundary, factory, piece=None):
     import os
     from poorwsgi import Application, state
     data_size = rng.choice([65365, 16, 16])
@@ -400,6 +412,8 @@ def through_request(rng, body, boundary, factory):
             self.b = io.BytesIO(data)
 
         def read(self, n=-1):
+            if piece is not None and (n is None or n < 0 or n > piece):
+                n = piece           # a short read: what has arrived so far
             return self.b.read(n)
 
         def readline(self, n=-1):
@@ -416,7 +430,7 @@ def through_request(rng, body, boundary, factory):
     b"".join(app(env, lambda s, h: st.append(s)))
     if not out:
         raise RuntimeError("request answered %s" % st[0])
-    return out[0], "POST data_size=%d cached_size=%d" % (data_size, cached)
+    return out[0], "POST data_size=%d cached_size=%d%s" % (data_size, cached, "" if piece is None else ", input in pieces of %d" % piece)
 
 
 def classify(case, obs):
